@@ -1,6 +1,7 @@
 package props
 
 import (
+	"encoding/hex"
 	"bytes"
 	"fmt"
 	"os"
@@ -99,6 +100,92 @@ func c06Fail(w *explore.Worker, space, s, fail string) {
 	w.Violation(&report.Case{Kind: "total", Expr: s, Expected: "exactly one of (expr, error); no panic; MustCompile non-nil", Got: fail, Class: cls,
 		Extra: map[string]interface{}{"bytes": fmt.Sprintf("%x", s)},
 		Sig:   "C06|" + space + "|" + cls + "|" + shape(s), Weight: len(s)})
+}
+
+// totalNS checks the C06 oracle on CompileWithNS(expr, {key: val}).
+func totalNS(expr string, ns map[string]string) (fail string, accepted bool) {
+	defer func() {
+		if r := recover(); r != nil {
+			fail = fmt.Sprintf("panic escaped: %v", r)
+		}
+	}()
+	e, err := xpath.CompileWithNS(expr, ns)
+	switch {
+	case e == nil && err == nil:
+		return "CompileWithNS returned (nil, nil)", false
+	case e != nil && err != nil:
+		return "CompileWithNS returned both an expression and an error", false
+	}
+	if e != nil {
+		if o := eng.Evaluate(e, emptyDoc, 0, true); o.Kind == "panic-runtime" {
+			return "expression accepted by CompileWithNS is not usable: " + o.Msg, true
+		}
+	}
+	return "", e != nil
+}
+
+// nsMapSpace: the namespace map is an input of CompileWithNS too — every map
+// with one binding whose prefix is any string of <= maxLen alphabet symbols
+// (alone and next to an ordinary binding), for expressions that use no prefix,
+// a bound one, that very prefix, and an unbound one.
+func nsMapSpace(maxLen int) *explore.Space {
+	k := len(c06Alphabet)
+	exprsFor := func(key string) []string {
+		return []string{"/a", "a:b", key + ":b", "*[" + key + ":*]", "q:b", "namespace-uri()"}
+	}
+	return &explore.Space{
+		Name: fmt.Sprintf("NSmap-key<=%d", maxLen), Desc: fmt.Sprintf("CompileWithNS with every one-binding namespace map whose prefix is a string of <= %d symbols over the %d-symbol byte alphabet (value 'u' or empty; alone and beside the binding a=u) x 6 expressions (no prefix, bound prefix, that very prefix as a name test and in a predicate, unbound prefix, namespace-uri())", maxLen, k),
+		Size:  k,
+		Label: func(i int) string { return fmt.Sprintf("key %q...", c06Alphabet[i]) },
+		Run: func(first int, w *explore.Worker) {
+			var keys []string
+			var rec func(s string, n int)
+			rec = func(s string, n int) {
+				keys = append(keys, s)
+				if n == maxLen {
+					return
+				}
+				for _, a := range c06Alphabet {
+					rec(s+a, n+1)
+				}
+			}
+			rec(c06Alphabet[first], 1)
+			if first == 0 {
+				keys = append(keys, "")
+			}
+			for _, key := range keys {
+				for _, val := range []string{"u", ""} {
+					for _, extra := range []bool{false, true} {
+						ns := map[string]string{key: val}
+						if extra {
+							ns["a"] = "u"
+						}
+						for _, ex := range exprsFor(key) {
+							w.Eval()
+							fail, acc := totalNS(ex, ns)
+							if acc {
+								w.NonTrivialCase(ex + "\x00" + key)
+								w.EngOutcome("accepted")
+							} else {
+								w.EngOutcome("rejected")
+							}
+							if fail != "" {
+								cls := fail
+								if i := strings.IndexByte(cls, ':'); i > 0 {
+									cls = cls[:i]
+								}
+								w.Violation(&report.Case{Kind: "totalns", Expr: ex, NS: ns, Expected: "exactly one of (expr, error); no panic", Got: fail, Class: cls,
+									Extra: map[string]interface{}{"key_bytes": fmt.Sprintf("%x", key), "expr_bytes": fmt.Sprintf("%x", ex), "val": val, "with_a": extra},
+									Sig:   "C06|NSmap|" + cls + "|key=" + shape(key) + "|" + shape(ex), Weight: len(key)*10 + len(ex)})
+							}
+						}
+					}
+				}
+			}
+			w.Sample(fmt.Sprintf("CompileWithNS(%q, {%q: u})", keys[len(keys)/2]+":b", keys[len(keys)/2]))
+			w.RefOutcome("n/a")
+		},
+	}
 }
 
 // shape abstracts a string to character classes (for grouping only).
@@ -440,6 +527,23 @@ func init() {
 		}
 		return fail, false, nil
 	})
+	report.RegisterReplayer("totalns", func(c *report.Case) (string, bool, error) {
+		// keys may be invalid UTF-8: the exact bytes are kept in hex
+		kb, err1 := hex.DecodeString(fmt.Sprint(c.Extra["key_bytes"]))
+		eb, err2 := hex.DecodeString(fmt.Sprint(c.Extra["expr_bytes"]))
+		if err1 != nil || err2 != nil {
+			return "", false, fmt.Errorf("totalns case: bad hex fields")
+		}
+		ns := map[string]string{string(kb): fmt.Sprint(c.Extra["val"])}
+		if b, _ := c.Extra["with_a"].(bool); b {
+			ns["a"] = "u"
+		}
+		fail, _ := totalNS(string(eb), ns)
+		if fail == "" {
+			return "total", true, nil
+		}
+		return fail, false, nil
+	})
 	report.RegisterReplayer("nest", func(c *report.Case) (string, bool, error) {
 		var unit []int
 		for _, f := range strings.Split(c.Extra["unit"].(string), ",") {
@@ -452,16 +556,16 @@ func init() {
 	})
 	explore.Register(&explore.Property{
 		ID: "C06", Level: "exploration",
-		Rule: "B1: every string of <= 3 (thorough: 4) symbols over a 48-symbol alphabet (all scanner-relevant bytes, quotes, digits, letters, blanks, NUL, 2- and 3-byte UTF-8, lone continuation byte, 0xFF); B2: every sequence of <= 4 (thorough: 5-6) tokens over 31 tokens joined with and without blanks; for each string Compile, CompileWithNS(nil,{},{a:u}) and MustCompile run under recover: no panic escapes, exactly one of (expr, error), MustCompile non-nil, an accepted expression reports its text and can be handed to Select. Calls: every function name x arity 0..4 x argument tuples, bare / in a predicate / as a step (Compile only). Nest: every repeating unit of 1-2 (thorough: 3) wrappers out of 30 recursive constructs in 7 outer contexts nested to depth 10..10^5 (thorough: 10^6, 10^7), each compiled in a child process with a 64 MiB stack cap; a stack overflow, crash or hang is a violation; non-trivial = string accepted by Compile / nesting case; distinct = distinct strings",
+		Rule: "B1: every string of <= 3 (thorough: 4) symbols over a 48-symbol alphabet (all scanner-relevant bytes, quotes, digits, letters, blanks, NUL, 2- and 3-byte UTF-8, lone continuation byte, 0xFF); B2: every sequence of <= 4 (thorough: 5-6) tokens over 31 tokens joined with and without blanks; for each string Compile, CompileWithNS(nil,{},{a:u}) and MustCompile run under recover: no panic escapes, exactly one of (expr, error), MustCompile non-nil, an accepted expression reports its text and can be handed to Select. NSmap: CompileWithNS with every one-binding map whose prefix is a string of <= 2 (thorough: 3) alphabet symbols x 6 expressions. Calls: every function name x arity 0..4 x argument tuples, bare / in a predicate / as a step (Compile only). Nest: every repeating unit of 1-2 (thorough: 3) wrappers out of 30 recursive constructs in 7 outer contexts nested to depth 10..10^5 (thorough: 10^6, 10^7), each compiled in a child process with a 64 MiB stack cap; a stack overflow, crash or hang is a violation; non-trivial = string accepted by Compile / nesting case; distinct = distinct strings",
 		Assumptions:    []string{"bounded string length / token count / nesting depth", "an unguarded recursion needs < 64 MiB of stack per 10^5..10^6 frames to be visible"},
 		Budget:         budget(90*time.Second, 14*time.Minute),
 		MinRefOutcomes: 1,
 		Spaces: func(tier string) []*explore.Space {
 			if tier == "thorough" {
-				return []*explore.Space{bytesSpace(4), tokenSpace(5, false), callSpace(), nestSpace(1, []int{10, 25, 40, 60, 100, 150, 1000, 10000, 100000, 1000000, 10000000}),
+				return []*explore.Space{bytesSpace(4), tokenSpace(5, false), callSpace(), nsMapSpace(3), nestSpace(1, []int{10, 25, 40, 60, 100, 150, 1000, 10000, 100000, 1000000, 10000000}),
 					nestSpace(2, []int{10, 30, 50, 1000, 100000, 1000000}), nestSpace(3, []int{20, 300, 100000})}
 			}
-			return []*explore.Space{bytesSpace(3), tokenSpace(4, true), callSpace(), nestSpace(1, []int{10, 25, 40, 60, 100, 150, 1000, 10000, 100000, 1000000}), nestSpace(2, []int{20, 45, 300, 100000})}
+			return []*explore.Space{bytesSpace(3), tokenSpace(4, true), callSpace(), nsMapSpace(2), nestSpace(1, []int{10, 25, 40, 60, 100, 150, 1000, 10000, 100000, 1000000}), nestSpace(2, []int{20, 45, 300, 100000})}
 		},
 	})
 }
